@@ -75,6 +75,9 @@ class CallMixin:
         if isinstance(f, ast.Attribute) and isinstance(f.value, ast.Name) and f.attr in ("append", "extend", "pop",
                                                                                         "insert", "remove"):
             d = self.scope_of(f.value.id)
+            if d is not None and d[f.value.id].t[0] == "comp" and d[f.value.id].t[1] == "list":
+                cur = d[f.value.id]
+                d[f.value.id] = V(("list", (("star", cur.t),)), cur.ty, cur.dep)
             if d is not None and d[f.value.id].t[0] == "list":
                 return self.list_mutation(d, f.value.id, f.attr, e)
         args, kwargs = self.eval_args(e)
